@@ -242,7 +242,12 @@ impl Encoder for TTYEncoder {
                 write!(out, "\x1b\\")?;
             }
             Title(title) => {
-                write!(out, "\x1b]0;{}\x1b\\", title)?;
+                out.write_all(b"\x1b]0;")?;
+                // control characters (BEL, ESC, ...) would terminate or corrupt the OSC string
+                for c in title.chars().filter(|c| !c.is_control()) {
+                    write!(out, "{}", c)?;
+                }
+                out.write_all(b"\x1b\\")?;
             }
             DeviceAttrs => {
                 write!(out, "\x1b[c")?;
